@@ -171,39 +171,15 @@ func (r *Rng) igcDoc() []byte {
 }
 
 func genC19(r *Rng, e *Emitter, n int) {
+	// the process is not in UTC: timestamps are instants, whatever zone the machine is in
+	time.Local = time.FixedZone("verif", 5*3600+1800)
 	re, fromSrc := hRegexpFromSource()
 	if !fromSrc {
 		e.tally("WARNING-hregexp-literal-not-found-in-source")
 	}
 	for i := 0; i < n; i++ {
 		if r.chance(1, 2) {
-			data := r.igcDoc()
-			var hs []string
-			seen := map[string]bool{}
-			for _, line := range scannerLines(data) {
-				if len(line) == 0 || line[0] != 'H' || seen[string(line)] {
-					continue
-				}
-				seen[string(line)] = true
-				if m := re.FindSubmatch(line); m != nil {
-					hs = append(hs, fmt.Sprintf("(%s %s %s)", hexS(line), hexS(m[2]), hexS(m[4])))
-				} else {
-					hs = append(hs, fmt.Sprintf("(%s nil)", hexS(line)))
-				}
-			}
-			input := fmt.Sprintf("(%s (%s))", hexS(data), strings.Join(hs, " "))
-			e.tally("op=decode")
-			e.pending("C19.dec", input)
-			e.emit("C19.dec", input, guard(func() string {
-				t, err := igc.Read(bytes.NewReader(data))
-				nerr := 0
-				if errs, ok := err.(igc.Errors); ok {
-					nerr = len(errs)
-				} else if err != nil {
-					nerr = 1
-				}
-				return fmt.Sprintf("(ok %s %d %d)", sxCoord(t.LineString.FlatCoords()), len(t.Headers), nerr)
-			}))
+			c19EmitDec(e, re, r.igcDoc())
 			continue
 		}
 		// round trip of a generated track: non-decreasing timestamps in 1970..2069
@@ -284,3 +260,33 @@ var c19Buf bytes.Buffer
 var c19Enc *igc.Encoder
 
 var _ = math.Abs
+
+// c19EmitDec decodes one IGC document and emits the record (fixes, header count, error count).
+func c19EmitDec(e *Emitter, re *regexp.Regexp, data []byte) {
+	var hs []string
+	seen := map[string]bool{}
+	for _, line := range scannerLines(data) {
+		if len(line) == 0 || line[0] != 'H' || seen[string(line)] {
+			continue
+		}
+		seen[string(line)] = true
+		if m := re.FindSubmatch(line); m != nil {
+			hs = append(hs, fmt.Sprintf("(%s %s %s)", hexS(line), hexS(m[2]), hexS(m[4])))
+		} else {
+			hs = append(hs, fmt.Sprintf("(%s nil)", hexS(line)))
+		}
+	}
+	input := fmt.Sprintf("(%s (%s))", hexS(data), strings.Join(hs, " "))
+	e.tally("op=decode")
+	e.pending("C19.dec", input)
+	e.emit("C19.dec", input, guard(func() string {
+		t, err := igc.Read(bytes.NewReader(data))
+		nerr := 0
+		if errs, ok := err.(igc.Errors); ok {
+			nerr = len(errs)
+		} else if err != nil {
+			nerr = 1
+		}
+		return fmt.Sprintf("(ok %s %d %d)", sxCoord(t.LineString.FlatCoords()), len(t.Headers), nerr)
+	}))
+}
